@@ -207,7 +207,7 @@ func c16Long(l *tlong, dir string) *tres {
 		}
 		res.Replays++
 		m := z.VerifTreeMetaOf(e.t)
-		ln, lf := m.NextPage, m.FreePage
+		ln, lf, lb := m.NextPage, m.FreePage, m.BufLen
 		for i := 0; i <= upTo && i < len(ops); i++ {
 			if pan := e.applyPlain(ops[i]); pan != nil {
 				res.Counters["failures_without_any_reopen_in_history_left_to_C10"]++
@@ -219,6 +219,10 @@ func c16Long(l *tlong, dir string) *tres {
 				continue
 			}
 			m = z.VerifTreeMetaOf(e.t)
+			if m.BufLen != lb {
+				lb = m.BufLen
+				res.Counters["file_growth_events_in_the_run_without_reopen"]++
+			}
 			if m.NextPage != ln || m.FreePage != lf || i == len(ops)-1 {
 				ln, lf = m.NextPage, m.FreePage
 				d, pan := e.digest()
@@ -367,9 +371,16 @@ func c16Jobs(tier, dir string) (jobs []*tjob) {
 	long(4096, "seq", "index", 0, "every-change")
 	long(4096, "seq", "index", n/3, "every-change")
 	long(4096, "rev", "index", 0, "every-change")
+	// two growths of the file (1 MiB -> 2 MiB+8 at page 255, -> 4 MiB+ at page 512) with a Reopen at every
+	// structural change in between: what the first reopen reconstructs about the buffer (its size) only
+	// matters at the SECOND growth
+	n2 := n
+	n = 70000
+	long(4096, "seq", "index", 0, "every-change")
+	n = n2
 	if !th {
 		// quick: the three cheap 4 KiB-page histories run before the searches (they need ~1 s each)
-		jobs = append(jobs[len(jobs)-3:], jobs[:len(jobs)-3]...)
+		jobs = append(jobs[len(jobs)-4:], jobs[:len(jobs)-4]...)
 		n = 6000
 		long(256, "seq", "index", n/3, "every-change")
 	}
@@ -387,6 +398,10 @@ func c16Jobs(tier, dir string) (jobs []*tjob) {
 		long(256, "rev", "index", n/3, "every-change")
 		long(256, "stride", "hash", n/3, "every-change")
 		long(256, "high", "hash", n/3, "every-change")
+		n = 70000
+		long(4096, "rev", "index", 0, "every-change")
+		long(4096, "seq", "index", n/3, "every-change")
+		long(256, "seq", "index", 0, "every-change")
 		n = 16000
 		long(80, "seq", "index", n/3, "every-change")
 	}
